@@ -23,3 +23,13 @@ let ask kind (b : n list) : len_result =
   | ["err"; p] -> LenErr (n_of_int (int_of_string p), [])
   | _ -> failwith ("oracle: " ^ line)
 
+
+(* property names of a flat object schema (a Path body), decided by the schema library *)
+let ask_props (b : n list) : n list list option =
+  let (ic, oc) = get_oracle () in
+  incr oracle_calls;
+  output_string oc ("props " ^ hex_of_bytes b ^ "\n"); flush oc;
+  let line = input_line ic in
+  match Stdlib.String.split_on_char ' ' line with
+  | ["ok"; ks] -> Some (Stdlib.List.map bytes_of_hex (Stdlib.String.split_on_char ',' ks))
+  | _ -> None
